@@ -2,6 +2,7 @@ package c14
 
 import (
 	"fmt"
+	"math"
 	"sort"
 	"testing"
 
@@ -17,7 +18,7 @@ import (
 type mstCase struct {
 	G
 	W    []int `json:"w"`    // weight numerators per model edge (missing entries: 1); weight = W/4
-	Wcls int   `json:"wcls"` // 0: as drawn, 1: all equal, 2: distinct
+	Wcls int   `json:"wcls"` // 0: as drawn, 1: all equal, 2: distinct, 3: as drawn with numerators >= 7 replaced by +Inf
 }
 
 func (c mstCase) weights(m *M) []float64 {
@@ -34,6 +35,9 @@ func (c mstCase) weights(m *M) []float64 {
 			v = 4*k - 9 // distinct, some negative
 		}
 		w[k] = float64(v) / 4 // dyadic: all sums exact
+		if c.Wcls == 3 && v >= 7 {
+			w[k] = math.Inf(1) // an edge of infinite weight is still an edge
+		}
 	}
 	return w
 }
@@ -113,6 +117,10 @@ func minForestWeight(m *M, w []float64, nc int) (float64, *vk.Failure) {
 }
 
 func checkMST(c mstCase) *vk.Failure {
+	return withIndet(c.G, func(g G) *vk.Failure { c2 := c; c2.G = g; return checkMST1(c2) })
+}
+
+func checkMST1(c mstCase) *vk.Failure {
 	c.Dir = false
 	m := model(c.G)
 	w := c.weights(m)
@@ -187,6 +195,11 @@ func checkMST(c mstCase) *vk.Failure {
 			ne++
 		}
 		if ne != m.n-nc {
+			if alg == "prim" && c.Wcls == 3 && ne < m.n-nc {
+				// Specific key: a node whose only connections have weight +Inf is
+				// never attached (keys start at +Inf and an update needs w < key).
+				return vk.Failf("prim-inf-weight-not-spanning", "with edges of weight +Inf, dst has %d edges; a spanning forest of g (%d nodes, %d components) has %d", ne, m.n, nc, m.n-nc)
+			}
 			return vk.Failf(alg+"-not-spanning", "dst has %d edges; a spanning forest of g (%d nodes, %d components) has %d", ne, m.n, nc, m.n-nc)
 		}
 		for i := 0; i < m.n; i++ {
@@ -234,9 +247,9 @@ func TestUndMST(t *testing.T) {
 		return mstCase{G: g, W: w, Wcls: i % 3 / 2 * 2} // mostly drawn weights, one third distinct
 	}, checkMST)
 	vk.Run(t, "und-mst", vk.Opts{Quick: 6000, Thorough: 120000, NoCrumb: true}, func(t *rapid.T) mstCase {
-		g := drawG(t, false, 40, undClasses, []int{contOrdered, contOrdered, contSimple})
+		g := drawG(t, false, 40, undClasses, []int{contOrdered, contOrdered, contSimple, contIndet})
 		// one numerator per drawn edge is enough (the model has at most that many)
 		w := rapid.SliceOfN(rapid.IntRange(-8, 12), len(g.E), len(g.E)).Draw(t, "w")
-		return mstCase{G: g, W: w, Wcls: rapid.SampledFrom([]int{0, 0, 0, 1, 2}).Draw(t, "wcls")}
+		return mstCase{G: g, W: w, Wcls: rapid.SampledFrom([]int{0, 0, 0, 1, 2, 3}).Draw(t, "wcls")}
 	}, checkMST)
 }
